@@ -120,6 +120,7 @@ class World:
         # environment state (server.py: transports, reader tasks)
         self.transports: dict = {}  # conn -> {"reading": bool}
         self.echo = False
+        self.dying = False
         self.pending_open = None
         self.pending_hook = None
         self.client_open = True
@@ -296,9 +297,10 @@ class World:
                 if t["reading"]:  # reader task cancelled: it still delivers ConnectionClosed, then unregisters
                     self.echo = True
                     t["reading"] = False
+                    self.pay_written -= sum(len(ch[1]) for ch in self.net if ch[0] == "p")  # never read: not part of the stream
                     self.net = []
-                else:
-                    self.transports.pop(conn)
+                else:  # its task (waiting for this) unregisters it when it runs again: after the current event
+                    self.dying = True
         else:
             tr.append({"k": "out", "what": "other", "name": type(cmd).__name__})
 
@@ -458,9 +460,16 @@ class World:
             return False
         return True
 
+    def step(self, op) -> bool:
+        ok = self.do(op)
+        if self.dying:
+            self.dying = False
+            self.transports.pop(self.tun, None)
+        return ok
+
     def run(self, ops):
         for op in ops:
-            if self.stop or not self.do(op):
+            if self.stop or not self.step(op):
                 break
         self.trace.append({"k": "end"})
         return self.trace
@@ -538,16 +547,24 @@ class Check(core.PropertyCheck):
     BASE = {"Ops": frozenset(CLIENT_OPS), "Rks": frozenset(("ok", "refused", "malformed")), "MaxOpens": 2, "ReopenHttp": False}
 
     def model_runs(self, ctx):
-        inv = ("Report", "NoNestedOpen", "QueuesWhenPaused", "ReplyOnlyWhileWaiting")
-        q = ctx.quick
-        runs = []
         import time as _t
 
+        inv = ("Report", "NoNestedOpen", "QueuesWhenPaused", "ReplyOnlyWhileWaiting")
         t0 = _t.time()
-        runs.append(ctx.model_check(self.MODEL, {**self.BASE, "Cfgs": CFGS_HTTP, "MaxClient": 2 if q else 3, "MaxPeer": 1,
-                                                 "MaxCut": 1, "CClose": not q}, dump=True, invariants=inv, view="View", tag="_http"))
-        runs.append(ctx.model_check(self.MODEL, {**self.BASE, "Cfgs": CFGS_PLAIN, "MaxClient": 3 if q else 4, "MaxPeer": 1,
-                                                 "MaxCut": 0, "CClose": True}, dump=True, invariants=inv, view="View", tag="_plain"))
+        http_q = {**self.BASE, "Cfgs": CFGS_HTTP, "MaxClient": 2, "MaxPeer": 1, "MaxCut": 1, "CClose": not ctx.quick}
+        plain_q = {**self.BASE, "Cfgs": CFGS_PLAIN, "MaxClient": 3, "MaxPeer": 1, "MaxCut": 0, "CClose": True}
+        runs = [ctx.model_check(self.MODEL, http_q, dump=True, invariants=inv, view="View", tag="_http"),
+                ctx.model_check(self.MODEL, plain_q, dump=True, invariants=inv, view="View", tag="_plain")]
+        self._sims = []
+        if not ctx.quick:
+            # larger instances: exhaustive for the statistics / invariants, behaviours by simulation
+            http_t = {**http_q, "MaxClient": 3, "CClose": True}
+            plain_t = {**plain_q, "MaxClient": 4, "MaxPeer": 2, "MaxCut": 1}
+            runs.append(ctx.model_check(self.MODEL, http_t, dump=False, invariants=inv, view="View", tag="_http_big"))
+            runs.append(ctx.model_check(self.MODEL, plain_t, dump=False, invariants=inv, view="View", tag="_plain_big"))
+            for tag, c in (("simh", {**http_t, "MaxClient": 5, "MaxPeer": 3, "MaxCut": 3}), ("simp", {**plain_t, "MaxClient": 6, "MaxOpens": 3})):
+                behs, _r = ctx.simulate(self.MODEL, c, num=3000, depth=30, tag=tag, timeout=900)
+                self._sims += behs
         ctx.notes["t_model_runs_s"] = round(_t.time() - t0, 1)
         return runs
 
@@ -587,12 +604,49 @@ class Check(core.PropertyCheck):
 
         for m in models:
             g = m.graph
+            if g is None:
+                continue
             behs = g.edge_cover(ctx.rng, max_len=40, tail=4)
             behs += g.random_walks(ctx.rng, 400 if ctx.quick else 6000, 22)
             for b in behs:
                 c = tlaval.to_py(b[0][2]["s"]["cfg"])
                 data = concretise(ctx.rng, {"cfg": c, "ops": self._ops(b)})
                 yield core.Scenario(data, predicted=core.predicted_events(b) + [{"k": "end"}], source="model")
+        for b in getattr(self, "_sims", []):
+            c = tlaval.to_py(b[0][2]["s"]["cfg"])
+            data = concretise(ctx.rng, {"cfg": c, "ops": self._ops(b)})
+            yield core.Scenario(data, predicted=core.predicted_events(b) + [{"k": "end"}], source="simulate")
+
+        # all two-segment splits and byte-wise delivery of every answer (segmentation independence, S5), with payload
+        # bytes glued to the end of the head
+        srng = random.Random(ctx.seed + 505)
+        hc = cfg("http", "command", hosthdr=True, auth=True)
+        for rk, heads in (("ok", OK_HEADS), ("refused", REFUSED_HEADS), ("malformed", MALFORMED_HEADS)):
+            for head in heads if not ctx.quick else heads[:3]:
+                cuts = list(range(1, len(head))) if not ctx.quick else sorted(
+                    set(srng.sample(range(1, len(head)), 6)) | {len(head) - 1, len(head) - 2, len(head) - 3, 1})
+                for cut in cuts + [0]:
+                    pre = [["start"], ["client", "open"], ["open_done", True], ["hook_done"], ["client", "send"],
+                           ["respond", rk], ["pwrite", 5]]
+                    if cut:
+                        mid = [["deliverb", cut], ["client", "echo"], ["deliverb", len(head) - cut + srng.choice([0, 2, 5])]]
+                    else:
+                        mid = [["deliverb", 1]] * (len(head) + 2)
+                    post = [["deliverb", 9], ["pwrite", 3], ["deliverb", 9], ["echo"], ["client", "send"], ["pclose"], ["fin"]]
+                    data = concretise(srng, {"cfg": dict(hc, hosthdr=srng.random() < 0.5, auth=srng.random() < 0.5),
+                                             "ops": pre + mid + post})
+                    data["resp"][rk] = head
+                    data["cut"] = 10 ** 6 - 1  # the head is written as one chunk ending ... irrelevant: deliverb cuts bytes
+                    yield core.Scenario(data, source="suite")
+        # seeded random environment, not bounded by the model's constants: byte-sized segments, many writes, long histories
+        rrng = random.Random(ctx.seed + 55)
+        allcfg = CFGS_HTTP + CFGS_PLAIN + (cfg("http", "command", react=False, hosthdr=False, auth=False),
+                                          cfg("http", "start", react=True, hosthdr=True, auth=True))
+        for _ in range(500 if ctx.quick else 12000):
+            c = dict(rrng.choice(allcfg))
+            data = concretise(rrng, {"cfg": c, "ops": None, "seed": rrng.randrange(1 << 30), "n": rrng.randint(8, 40)})
+            data["resp"] = random_heads(rrng)
+            yield core.Scenario(data, source="random")
 
     def drift_view(self, trace):
         return trace[1:]  # the cfg record is the model's initial state
@@ -600,6 +654,63 @@ class Check(core.PropertyCheck):
     def execute(self, sc):
         logging.disable(logging.CRITICAL)
         try:
+            if sc.get("ops") is None:
+                return random_run(sc)
             return World(sc).run(sc["ops"])
         finally:
             logging.disable(logging.NOTSET)
+
+
+def random_heads(rng):
+    def hdrs():
+        return "".join("%s: %s\r\n" % (rng.choice(["Via", "X-Id", "Proxy-Agent", "Date", "Connection"]),
+                                       rng.choice(["1", "keep-alive", "a b  c", "x" * rng.randint(1, 40)]))
+                       for _ in range(rng.randint(0, 3)))
+
+    def line(code):
+        return "HTTP/1.%d %d%s\r\n" % (rng.randint(0, 1), code, rng.choice(["", " OK", " Connection established", " No", " x y z"]))
+
+    return {"ok": line(rng.randint(200, 299)) + hdrs() + "\r\n",
+            "refused": line(rng.choice([rng.randint(300, 599), 407, 403, 502])) + hdrs() + "\r\n",
+            "malformed": rng.choice(MALFORMED_HEADS)}
+
+
+def random_run(sc):
+    """Seeded random environment.  Choices depend only on what the environment itself knows (outstanding commands, what the
+    peer wrote); an action that turns out not to be enabled is skipped."""
+    rng = random.Random(sc["seed"])
+    w = World(sc)
+    http = sc["cfg"]["kind"] == "http"
+    done = [["start"]]
+    w.step(["start"])
+    for _ in range(int(sc["n"]) * 2):
+        if w.stop or len(done) > int(sc["n"]):
+            break
+        cands = [["client", rng.choice(CLIENT_OPS)]] * 3 + [["client", "open"], ["client", "send"]]
+        if rng.random() < 0.04:
+            cands.append(["cclose"])
+        if w.pending_open is not None:
+            cands += [["open_done", rng.random() < 0.85]] * 4
+        if w.pending_hook is not None:
+            cands += [["hook_done"]] * 4
+        if http and w.connect_sent and not w.responded:
+            cands += [["respond", rng.choice(["ok", "ok", "ok", "refused", "malformed"])]] * 4
+        t = w.transports.get(w.tun)
+        if t and t["reading"]:
+            cands += [["pwrite", rng.choice([1, 2, 7, 13, 30])]] * 2
+            pend = sum(len(ch[1]) for ch in w.net if ch[0] != "fin")
+            if pend:
+                cands += [["deliverb", rng.choice([1, 2, 3, max(1, w.head_left - 1), max(1, w.head_left), w.head_left + 1,
+                                                   pend, max(1, pend - 1), rng.randint(1, pend)])]] * 5
+            if rng.random() < 0.12:
+                cands.append(["pclose"])
+            if w.net and w.net[0][0] == "fin":
+                cands += [["fin"]] * 3
+        if w.echo:
+            cands += [["echo"]] * 2
+        op = rng.choice(cands)
+        if w.step(op):
+            done.append(op)
+    sc["ops_generated"] = done
+    w.trace.append({"k": "end"})
+    return w.trace
